@@ -82,10 +82,10 @@ def make_doubles():
             w = self.world
             w.polls += 1
             item = w.script.pop(0) if w.script else 'nothing'
-            if item in ('arrive', 'arrive_close'):
+            for _ in range({'arrive': 1, 'arrive_close': 1, 'arrive2': 2, 'arrive2_close': 2}.get(item, 0)):
                 self._parser.feed(arrival(w.nextid).bytes())
                 w.nextid += 1
-            if item in ('close', 'arrive_close'):
+            if item in ('close', 'arrive_close', 'arrive2_close'):
                 self.close()
 
         def _send(self, msg):
@@ -467,6 +467,11 @@ def run(ctx):
         if r:
             ctx.violation('lifecycle/socket/%s' % r[0], {'row': ['socket', mode, stream, cut, acts, delivered, polls]},
                           '%s (SocketPort, %s, peer actions %r)' % (r[1], mode, acts))
+    # a member of a MultiPort that takes in a burst and closes itself
+    for nb in (100, 64, 65, 1):
+        for key, case, msg in c18.check_multi_member_burst(nb):
+            ctx.violation('lifecycle/socket/' + key, {'row': ['multiburst', nb]}, msg)
+        ctx.replayed += 1
     ctx.constants = {'plan': plan}
     ctx.exhaustive = True
     ctx.assumptions += [
